@@ -22,6 +22,7 @@ RULE = ('histories (8–45 ops) over 1–3 real streams (single- and multi-phase
         'imol/imass/ivol.get_data/set_data(units), get_property/set_property(F_*, units) and indexer constructors with units= '
         '(unit strings drawn from all flow units, so mostly of another dimension than the view; each case starts from cold '
         'unit memos and many first convert legitimately to the same units string), '
+        'empty_negative_flows on streams with negative flows and cached views, '
         'Stream / MultiStream constructors with units= (all eight) and total_flow=, Stream.copy() / copy(thermo=), '
         'view reductions (.sum/.max/.any), index-less get_data / set_data, Material indexer constructors with units=, '
         'reset_flow (single and multi-phase; every unit dimension or none; with / without phase(s) change and total_flow), '
@@ -500,6 +501,15 @@ def run_ops(ops):
             conserve(sid, s, 'thermo', tb)
             mark_change(sid, 'thermo')
             emit(f'thermo {sid} {k} {mat(mol_rows(s))}', shape_ans(s))
+        elif op == 'emptyneg':
+            # Stream.empty_negative_flows(): negative molar flows are deleted in place; the cached views must still wrap the
+            # stream's rows afterwards
+            sid = S(t[1]); s = w.streams[sid]
+            before = mol_rows(s)
+            s.empty_negative_flows()
+            mark_change(sid, op)
+            emit(f'emptyneg {sid}', shape_ans(s))
+            conserve(sid, s, op, [[x if x > 0 else 0.0 for x in r] for r in before], rowwise=True)
         elif op in ('scale', 'empty', 'react'):
             sid = S(t[1]); s = w.streams[sid]
             before = mol_rows(s)
@@ -1390,7 +1400,8 @@ def gen_change(rng, o, n):
     if r < 0.84: return f'thermo {o} {rng.choice([0, 1, 1, 2])}'
     if r < 0.91: return f'mix {o} {other} {rng.randrange(n)}'
     if r < 0.96: return f'react {o} {rng.choice(["mol", "wt"])}'
-    if r < 0.98: return f'scale {o} {rng.choice([2, 0.5, 3])}'
+    if r < 0.975: return f'scale {o} {rng.choice([2, 0.5, 3])}'
+    if r < 0.99: return f'emptyneg {o}'
     return f'empty {o}'
 
 
@@ -1503,6 +1514,11 @@ def grid():
         for d in ('mol', 'mass', 'vol'):
             out.append(Case(['new1 0 l 298.15 101325.0 1,2,0,0.5', f'getdataall 0 {d} {u}', f'setdataall 0 {d} {u} 3,0,7,1.5',
                              f'getdataall 0 {d} {u}', 'obs 0', f'ctor {d} {u} m'], {'grid': 'view-units'}))
+    for cls in ('new1 0 l 298.15 101325.0 1,-2.1,0,0.5', 'newm 0 gl 320.0 101325.0 1,-2.1,0,0.5|-0.45,1,3,0',
+                'new1 0 l 298.15 101325.0 1,2,0,0.5'):
+        for pre in ('obs 0', 'rdmass 0', 'rdvol 0', None):
+            out.append(Case([cls] + ([pre] if pre else []) + ['emptyneg 0', 'obs 0', 'put 0 mass 0 1 20', 'obs 0',
+                                                              'put 0 vol 0 0 0.125', 'obs 0'], {'grid': 'emptyneg'}))
     for cls in ('new1 0 l 298.15 101325.0 1,2,0,0.5', 'newm 0 gl 320.0 101325.0 1,2,0,0.5|0,1,3,0'):
         for k in ('-', '1'):
             out.append(Case([cls, 'obs 0', f'copy 0 {k}', 'obs 1', 'put 1 mol 0 1 5', 'obs 1', 'obs 0', 'setT 1 350.0', 'obs 1',
@@ -1525,14 +1541,18 @@ def gen_negative_case(rng):
     ops.append(f'new1 0 l {pickT(rng)} {pickP(rng)} {row()}')
     for _ in range(rng.randrange(4, 12)):
         o = rng.randrange(2); r = rng.random()
-        if r < 0.3: ops += [f'put {o} {rng.choice(ALL_DIMS)} {rng.randrange(3)} {rng.randrange(5)} {rng.choice(NEG)}', f'obs {o}']
-        elif r < 0.55:
+        if r < 0.25: ops += [f'put {o} {rng.choice(ALL_DIMS)} {rng.randrange(3)} {rng.randrange(5)} {rng.choice(NEG)}', f'obs {o}']
+        elif r < 0.45:
             u = rng.choice(FLOW_UNITS); ph, i = rng.randrange(3), rng.randrange(5)
             ops += [f'setflow {o} {u} {ph} {i} {rng.choice(NEG)}', f'getflow {o} {u} {ph} {i}', f'getflow {o} {rng.choice(FLOW_UNITS)} {ph} {i}']
-        elif r < 0.7: ops += [gen_assign(rng, o, 2), f'obs {o}']
-        elif r < 0.8: ops.append(f'setT {o} {pickT(rng)}')
-        elif r < 0.9: ops.append(f'getflowall {o} {rng.choice(FLOW_UNITS)}')
-        else: ops.append(f'setphase {o} {rng.choice("lg")}')
+        elif r < 0.58: ops += [gen_assign(rng, o, 2), f'obs {o}']
+        elif r < 0.66: ops.append(f'setT {o} {pickT(rng)}')
+        elif r < 0.74: ops.append(f'getflowall {o} {rng.choice(FLOW_UNITS)}')
+        elif r < 0.80: ops.append(f'setphase {o} {rng.choice("lg")}')
+        else:
+            # views cached, negative flows removed in place, then the views are read and written again
+            ops += [rng.choice([f'obs {o}', f'rdmass {o}', f'rdvol {o}']), f'emptyneg {o}', f'obs {o}',
+                    f'put {o} {rng.choice(["mass", "vol"])} {rng.randrange(3)} {rng.randrange(5)} {rng.choice([1.5, 20, 3])}', f'obs {o}']
     return Case(ops + ['obs 0', 'obs 1'], {'kind': 'negative'})
 
 
@@ -1542,7 +1562,7 @@ def generate(rng, tier, index, nworkers):
         if k % nworkers == index: yield c
     n = max(1, (budget(tier)['cases'] - len(g)) // nworkers)
     for _ in range(n):
-        yield gen_negative_case(rng) if rng.random() < 0.04 else gen_case(rng, rng.randrange(8, 46))
+        yield gen_negative_case(rng) if rng.random() < 0.08 else gen_case(rng, rng.randrange(8, 46))
 
 
 def corpus():
